@@ -50,8 +50,10 @@ def prep(g, rnd, task, thumb, itpos, k):
     if g.cfg['arch_version'] >= 7:
         # SCTLR.U is RAO on ARMv7: a v7 state with U = 0 does not exist
         st['sys']['SCTLR'] = limbs(C.unlimbs(st['sys']['SCTLR']) | (1 << 22))
-    if task.get('ns') and rnd.random() < 0.5:
-        st['sys']['SCR'] = limbs(C.unlimbs(st['sys']['SCR']) | 1)
+    if task.get('ns'):
+        # security state and the SCR bits that gate CPSR.A / CPSR.F writes (AW, FW)
+        scr = C.unlimbs(st['sys']['SCR']) & ~0x31
+        st['sys']['SCR'] = limbs(scr | rnd.getrandbits(1) | (rnd.getrandbits(1) << 5) | (rnd.getrandbits(1) << 4))
     # keep data addresses mostly inside the RAM so loads/stores do something
     for r in ('R0usr', 'R1usr', 'R2usr', 'R3usr', 'R4usr', 'R5usr', 'R6usr', 'R7usr', 'SPusr', 'SPsvc', 'SPfiq',
               'SPmon', 'SPirq', 'SPabt', 'SPund'):
